@@ -66,7 +66,7 @@ Definition run_c02_query (g : graph) (q : sexp) : sexp :=
               let model_ok := match v with None => true | Some _ => false end in
               let impl_ok_b := negb (N.eqb impl_ok 0) in
               let holds := Bool.eqb impl_ok_b (negb f) in
-              L ([of_bool model_ok; of_bool holds]
+              L ([of_bool model_ok; judge holds]
                  ++ (if holds then [] else
                        if c02_known_class g o' roots' then [of_atoms [CLASSTAG; 201]] else []))
           | _, _ => L [A 424242]
